@@ -28,8 +28,7 @@ INTERNAL_FUNCS = {
 ACCEPT_ALWAYS = {I, L, N}
 
 
-def rel(p):
-    return p[len("/repo/"):] if p.startswith("/repo/") else p
+from core import rel  # noqa: E402
 
 
 def acceptable(tag, need):
